@@ -193,7 +193,8 @@ theorem filterValue_string {env : Env} {r : RuleData} {f opc : Nat} {rhs : Bytes
 /-! ### a generic induction principle over what rule.Build accumulates -/
 
 theorem ruleDataOf_induct {env : Env} (P : RuleData → Prop)
-    (h0 : ∀ fl ac, P { flags := fl, action := ac, allSyscalls := true })
+    (h0 : ∀ fl ac, (∃ l, setList l = some fl) → (∃ a, setAction a = some ac) →
+      P { flags := fl, action := ac, allSyscalls := true })
     (hF : ∀ r r' l o v, P r → addFilter env r l o v = some r' → P r')
     (hI : ∀ r r' l o v, P r → addInterField r l o v = some r' → P r')
     (hS : ∀ r r' sc, P r → addSyscall r sc = some r' → P r')
@@ -212,7 +213,7 @@ theorem ruleDataOf_induct {env : Env} (P : RuleData → Prop)
     · simp at h
     · obtain ⟨r1, h1, h⟩ := Option.bind_eq_some_iff.mp h
       obtain ⟨r2, h2, h⟩ := Option.bind_eq_some_iff.mp h
-      exact hK _ _ _ (hF _ _ _ _ _ (hF _ _ _ _ _ (h0 _ _) h1) h2) h
+      exact hK _ _ _ (hF _ _ _ _ _ (hF _ _ _ _ _ (h0 _ _ ⟨ofString "exit", by decide +kernel⟩ ⟨ofString "always", by decide +kernel⟩) h1) h2) h
   | syscall t list action filters syscalls keys =>
     simp only [ruleDataOf] at h
     split at h
@@ -257,7 +258,7 @@ theorem ruleDataOf_induct {env : Env} (P : RuleData → Prop)
             simp only [Option.bind_some] at hy
             exact hS _ _ _ (ha r0 rfl) hy
       obtain ⟨r2, hr2, h⟩ := Option.bind_eq_some_iff.mp h
-      have i2 : P r2 := foldS syscalls _ (fun x hx => foldF filters _ (fun y hy => by simp only [Option.some.injEq] at hy; subst hy; exact h0 _ _) x hx) r2 hr2
+      have i2 : P r2 := foldS syscalls _ (fun x hx => foldF filters _ (fun y hy => by simp only [Option.some.injEq] at hy; subst hy; exact h0 _ _ ⟨_, hfl⟩ ⟨_, hac⟩) x hx) r2 hr2
       exact hK _ _ _ i2 h
     · simp at h
 
@@ -265,7 +266,7 @@ theorem ruleDataOf_induct {env : Env} (P : RuleData → Prop)
 theorem aligned_ruleDataOf {env : Env} {rule : Rule} {r : RuleData} (h : ruleDataOf env rule = some r) :
     Aligned r.trips r.strings := by
   refine ruleDataOf_induct (env := env) (fun r => Aligned r.trips r.strings) ?_ ?_ ?_ ?_ h
-  · intro fl ac; simp [Aligned]
+  · intro fl ac _ _; simp [Aligned]
   · intro r r' l o v ha hf
     unfold addFilter at hf
     split at hf
